@@ -16,7 +16,7 @@ CACHE = os.path.join(VERIF, ".cache")
 HARNESS = os.path.join(VERIF, "harness")
 REPO = os.environ.get("VERIF_REPO", "/repo")
 GUARD = "dust_dds_verif"
-NPROC = int(os.environ.get("VERIF_NPROC", "6"))  # TODO restore default 16 when the machine is quiet
+NPROC = int(os.environ.get("VERIF_NPROC", "16"))
 
 FORBIDDEN = re.compile(
     r"\b(Admitted|admit|Axiom|Axioms|Parameter|Parameters|Conjecture|Conjectures|"
